@@ -108,6 +108,15 @@ def enumerate_injections(ir, uni, kinds=None):
             out.append(_ins("bad-key", 0, url, idx, [bad + " v"],
                             family="conversion", value=bad))
         sl = slots(ir, ctx)
+        if "unknown-key" in kinds:
+            # a key line spelled like a fixed-name SECTION slot of the
+            # container: not a key of it, however the lookup is organised
+            fixed = [it["name"] for it, _t in sl
+                     if it["name"] not in ("*", "+")]
+            if fixed:
+                nm = fixed[n % len(fixed)]
+                out.append(_ins("unknown-key", 1, url, idx,
+                                ["%s v" % [nm, nm.upper()][n % 2]]))
         admitted = set()
         for it, tns in sl:
             admitted.update(tns)
